@@ -6,7 +6,7 @@ R01d binding stores
 import ast
 from typing import Dict, List, Optional, Set, Tuple
 
-from ..cfg import analysis, FuncAnalysis, Node, N, E
+from ..cfg import analysis, FuncAnalysis, Node, N, E, branch_atoms, branch_has, decompose
 from ..lib import prov, is_convert_call, convert_type_arg, Origin, opt_attr
 from ..model import AnalysisError, FuncInfo, call_attr, call_name, kwarg, unparse, walk_shallow, norm_stmt, names_in, dotted
 from . import c04
@@ -315,10 +315,12 @@ def r01c(run):
     def branch(text, pol):
         if text == "not options.ignore_constraints":
             # the options object is recognised under any local name
-            return [n for n in fa.cfg.nodes if n.kind == "branch" and not n.is_for and n.polarity == pol
-                    and isinstance(n.test, ast.UnaryOp) and isinstance(n.test.op, ast.Not)
-                    and opt_attr(n.test.operand) == "ignore_constraints"]
-        return [n for n in fa.cfg.nodes if n.kind == "branch" and not n.is_for and unparse(n.test) == text and n.polarity == pol]
+            return [n for n in fa.cfg.nodes if n.kind == "branch" and not n.is_for
+                    and len(decompose(n.test, n.polarity)) == 1
+                    and any(opt_attr(a_) == "ignore_constraints" and bool(p_) != pol
+                            for a_, p_ in decompose(n.test, n.polarity))]
+        # the guard alone: a conjunct added to the test (`if cls.__args_parser__ and value:`) is an additional guard
+        return [n for n in fa.cfg.nodes if n.kind == "branch" and not n.is_for and branch_atoms(n) == [(text, pol)]]
     for (bt, pol, stage, node_) in (("cls.__origin__", True, "origin transform", T),
                                     ("cls.__args_parser__", True, "element parser", A),
                                     ("not options.ignore_constraints", True, "validators loop", L)):
@@ -422,8 +424,8 @@ def r01d(run):
                     if o.kind == "call" and o.text.split(".")[-1] in PARSED_ORIGINS:
                         continue
                     # raw definition: it may reach the store only through the documented passthrough branch
-                    waivers = [b for b in fa.cfg.nodes if b.kind == "branch" and not b.is_for and b.polarity
-                               and unparse(b.test).endswith("in self.exclude_indexes")]
+                    waivers = [b for b in fa.cfg.nodes if b.kind == "branch" and not b.is_for
+                               and any(t_.endswith("in self.exclude_indexes") and p_ for t_, p_ in branch_atoms(b))]
                     if isinstance(e, ast.Name) and o.at is not None and waivers:
                         kills = [m for m in fa.cfg.nodes if m is not o.at and e.id in fa.rd.gen.get(m, [])]
                         reach = fa.cfg.reach_from_succ(o.at, kinds=(N,), avoid=kills + waivers)
